@@ -753,6 +753,7 @@ impl Worker {
 
         let mut file = self.active_file.take();
         let mut file_set = ActiveFileSet::empty(&self.metrics, &self.dir);
+        let has_read_file_set = file.is_none();
 
         if file.is_none() {
             if let Err(err) = self.fs.create_dir_all(Path::new(&self.dir)) {
@@ -771,21 +772,7 @@ impl Worker {
                 return Err(emit_batcher::BatchError::retry(err, batch));
             }
 
-            let _ = file_set
-                .read(&self.fs, &self.file_prefix, &self.file_ext)
-                .map_err(|err| {
-                    self.metrics.file_set_read_failed.increment();
-
-                    emit::warn!(
-                        rt: emit::runtime::internal(),
-                        "failed to files in read {path}: {err}",
-                        #[emit::as_debug]
-                        path: &file_set.dir,
-                        err,
-                    );
-
-                    err
-                });
+            self.read_file_set(&mut file_set);
 
             if self.reuse_files {
                 if let Some(file_name) = file_set.current_file_name() {
@@ -819,6 +806,12 @@ impl Worker {
         let mut file = if let Some(file) = file {
             file
         } else {
+            // If we were holding an active file then the set of
+            // existing files hasn't been read yet
+            if !has_read_file_set {
+                self.read_file_set(&mut file_set);
+            }
+
             // Leave room for the file we're about to create
             file_set.apply_retention(&self.fs, self.max_files.saturating_sub(1));
 
@@ -914,6 +907,24 @@ impl Worker {
 
         Ok(())
     }
+
+    fn read_file_set(&self, file_set: &mut ActiveFileSet) {
+        let _ = file_set
+            .read(&self.fs, &self.file_prefix, &self.file_ext)
+            .map_err(|err| {
+                self.metrics.file_set_read_failed.increment();
+
+                emit::warn!(
+                    rt: emit::runtime::internal(),
+                    "failed to files in read {path}: {err}",
+                    #[emit::as_debug]
+                    path: &file_set.dir,
+                    err,
+                );
+
+                err
+            });
+    }
 }
 
 struct ActiveFileSet<'a> {
@@ -973,9 +984,13 @@ impl<'a> ActiveFileSet<'a> {
     }
 
     fn apply_retention(&mut self, fs: impl Filesystem, max_files: usize) {
-        while self.file_set.len() >= max_files {
+        while self.file_set.len() > max_files {
+            let Some(file_name) = self.file_set.pop() else {
+                break;
+            };
+
             let mut path = PathBuf::from(self.dir);
-            path.push(self.file_set.pop().unwrap());
+            path.push(file_name);
 
             if let Err(err) = fs.remove_file(&path) {
                 self.metrics.file_delete_failed.increment();
